@@ -134,8 +134,9 @@ class C01(Check):
         wblock = case["block"] or (1 << 20)
         if any(n >= 2 * wblock for n in lens):
             sig_base["multiblock"] = True
-        if filters and is_kf03(filters):
+        if filters and is_kf03(filters) and not case.get("pin_known"):
             # KF-03 (open): Delta+BCJ in front of LZMA1 is written but cannot be decoded; constructed around, counted
+            # (regress/C01/kf03.json pins it with "pin_known" so that every run reports the finding once)
             out.skipped = "KF-03"
             return out
         work = env.tmpdir("c01")
@@ -167,7 +168,13 @@ class C01(Check):
                     return out
                 except Exception as e:
                     cls, frame = arch.exc_sig(e)
-                    out.violate(dict(sig_base, kind="write-raises", exc=cls, frame=frame), observed=repr(e)[:300], expected="archive written")
+                    sig = dict(sig_base, kind="write-raises", exc=cls, frame=frame)
+                    if cls in ("RecursionError", "OSError") and case["target"] == "multivolume":
+                        # KF-45 (open, dependency): multivolumefile.MultiVolume.write() recurses once per volume and keeps every
+                        # volume open; one write spanning ~1000 volumes cannot succeed
+                        sig["target"] = "multivolume"
+                        sig["volumes_over_900"] = sum(lens) // max(1, case.get("volume") or 1) > 900
+                    out.violate(sig, observed=repr(e)[:300], expected="archive written")
                     return out
                 tgt.release()
                 # ---- read back through a factory
